@@ -265,10 +265,104 @@ func walkedFields(fn *ssa.Function) []walkUse {
 		return nil
 	}
 	w := fn.Params[len(fn.Params)-1]
+	// a local closure that makes the visit for the expression it is handed:
+	// visit := func(expr Expression) { w(ChildScope{LocalNames: names, Expr: expr}) }
+	for _, af := range fn.AnonFuncs {
+		if len(af.Params) != 1 || !isExprType(af.Params[0].Type()) {
+			continue
+		}
+		scoped, direct := false, false
+		names := map[*types.Var]bool{}
+		for _, b := range af.Blocks {
+			for _, ins := range b.Instrs {
+				call, ok := ins.(*ssa.Call)
+				if !ok || len(call.Call.Args) != 1 {
+					continue
+				}
+				isW := false
+				for _, o := range originsOf(call.Call.Value, nil) {
+					if o == ssa.Value(w) {
+						isW = true
+					}
+				}
+				if !isW {
+					continue
+				}
+				inner := call.Call.Args[0]
+				if mi, ok := inner.(*ssa.MakeInterface); ok {
+					inner = mi.X
+				}
+				if inner == ssa.Value(af.Params[0]) {
+					direct = true
+				}
+				if u, ok := inner.(*ssa.UnOp); ok && u.Op == token.MUL {
+					if al, ok := u.X.(*ssa.Alloc); ok && isNamed(al.Type(), hclsyntaxPath, "ChildScope") {
+						for _, st := range storesInto(al) {
+							fa, ok := st.Addr.(*ssa.FieldAddr)
+							if !ok {
+								continue
+							}
+							fv := fieldVarOf(fa.X.Type(), fa.Field)
+							if fv == nil {
+								continue
+							}
+							switch fv.Name() {
+							case "Expr":
+								if st.Val == ssa.Value(af.Params[0]) {
+									scoped = true
+								}
+							case "LocalNames":
+								for _, n := range mapKeyFields(st.Val, fn) {
+									names[n] = true
+								}
+							}
+						}
+					}
+				}
+			}
+		}
+		if !scoped && !direct {
+			continue
+		}
+		for _, b := range fn.Blocks {
+			for _, ins := range b.Instrs {
+				call, ok := ins.(*ssa.Call)
+				if !ok || len(call.Call.Args) != 1 {
+					continue
+				}
+				callsAf := false
+				for _, o := range originsOf(call.Call.Value, nil) {
+					if mc, ok := o.(*ssa.MakeClosure); ok && mc.Fn == ssa.Value(af) {
+						callsAf = true
+					}
+					if o == ssa.Value(af) {
+						callsAf = true
+					}
+				}
+				if !callsAf {
+					continue
+				}
+				for _, f := range exprFieldsOf(call.Call.Args[0]) {
+					if scoped {
+						out = append(out, walkUse{f, true, names, call.Pos()})
+					} else {
+						out = append(out, walkUse{f, false, nil, call.Pos()})
+					}
+				}
+			}
+		}
+	}
 	for _, b := range fn.Blocks {
 		for _, ins := range b.Instrs {
 			call, ok := ins.(*ssa.Call)
-			if ok && call.Call.Value != ssa.Value(w) {
+			isWCall := ok && call.Call.Value == ssa.Value(w)
+			if ok && !isWCall {
+				// w spilled into a cell because a closure captures it
+				if os := originsOf(call.Call.Value, nil); len(os) == 1 && os[0] == ssa.Value(w) {
+					isWCall = true
+				}
+			}
+			if ok && !isWCall {
 				// the walk callback handed on to a helper of the package together with child fields
 				// (walkExprs(w, e.Args)): the helper is trusted to visit what it is given iff it calls
 				// its callback parameter
@@ -298,7 +392,7 @@ func walkedFields(fn *ssa.Function) []walkUse {
 					}
 				}
 			}
-			if !ok || call.Call.Value != ssa.Value(w) || len(call.Call.Args) != 1 {
+			if !ok || !isWCall || len(call.Call.Args) != 1 {
 				continue
 			}
 			arg := call.Call.Args[0]
@@ -356,19 +450,75 @@ func mapKeyFields(m ssa.Value, fn *ssa.Function) []*types.Var {
 				if !ok {
 					continue
 				}
-				if mu.Map != m && !sameCell(mu.Map, m) {
+				if mu.Map != m && !sameCell(mu.Map, m) && !sameMadeMap(mu.Map, m) {
 					// maps stored in a field of a fresh object: compare by load source
 					continue
 				}
-				for fv := range fieldTrail(mu.Key) {
-					if b, ok := fv.Type().Underlying().(*types.Basic); ok && b.Kind() == types.String {
-						out = append(out, fv)
-					}
+				for fv := range keyStringFields(mu.Key) {
+					out = append(out, fv)
 				}
 			}
 		}
 	}
 	scan(fn)
+	return out
+}
+
+// sameMadeMap: both values are (loads of cells that only hold) the same map made by one make.
+func sameMadeMap(a, b ssa.Value) bool {
+	oa, ob := originsOf(a, nil), originsOf(b, nil)
+	if len(oa) != 1 || len(ob) != 1 || oa[0] != ob[0] {
+		return false
+	}
+	_, isMake := oa[0].(*ssa.MakeMap)
+	return isMake
+}
+
+// keyStringFields: the string fields a map key is read from — directly, or as an element of an
+// array literal whose elements are read from such fields (for _, n := range [...]string{e.A, e.B}).
+func keyStringFields(key ssa.Value) map[*types.Var]bool {
+	out := map[*types.Var]bool{}
+	add := func(v ssa.Value) {
+		for fv := range fieldTrail(v) {
+			if b, ok := fv.Type().Underlying().(*types.Basic); ok && b.Kind() == types.String {
+				out[fv] = true
+			}
+		}
+	}
+	add(key)
+	fromArray := func(arr *ssa.Alloc) {
+		for _, r := range *arr.Referrers() {
+			if ia2, ok := r.(*ssa.IndexAddr); ok {
+				for _, r2 := range *ia2.Referrers() {
+					if st, ok := r2.(*ssa.Store); ok && st.Addr == ssa.Value(ia2) {
+						add(st.Val)
+					}
+				}
+			}
+		}
+	}
+	if ix, ok := key.(*ssa.Index); ok {
+		if u, ok := ix.X.(*ssa.UnOp); ok && u.Op == token.MUL {
+			if arr, ok := u.X.(*ssa.Alloc); ok {
+				fromArray(arr)
+			}
+		}
+	}
+	if u, ok := key.(*ssa.UnOp); ok && u.Op == token.MUL {
+		if ia, ok := u.X.(*ssa.IndexAddr); ok {
+			if arr, ok := ia.X.(*ssa.Alloc); ok {
+				for _, r := range *arr.Referrers() {
+					if ia2, ok := r.(*ssa.IndexAddr); ok {
+						for _, r2 := range *ia2.Referrers() {
+							if st, ok := r2.(*ssa.Store); ok && st.Addr == ssa.Value(ia2) {
+								add(st.Val)
+							}
+						}
+					}
+				}
+			}
+		}
+	}
 	return out
 }
 
